@@ -108,6 +108,19 @@ func rep(s string, n int) string {
 
 func zs(n int) string { return string(make([]byte, n)) }
 
+func nz(s string) string {
+	b := make([]byte, 0, len(s))
+	for i := 0; i < len(s); i++ {
+		if s[i] == 1 && i+1 < len(s) {
+			i++
+			b = append(b, s[i]-'0')
+		} else {
+			b = append(b, s[i])
+		}
+	}
+	return string(b)
+}
+
 func tobss(k int, v []string) [][]byte {
 	r := make([][]byte, len(v))
 	for i := 0; i < len(v); i++ {
@@ -270,6 +283,10 @@ def go_str(b):
         # an all-zero literal would be de-duplicated by the Wa compiler against zero-initialised (mutable) global
         # storage of the data segment (wir/wat/data_seg.go Append) — build it at run time instead
         return "zs(%d)" % len(b)
+    if 0 in b:
+        # likewise a literal that starts or ends with NUL bytes can be placed over the zero bytes of a mutable global
+        # next to other data: NUL never appears in a literal, it is written \x01 0 (and \x01 as \x01 1) and decoded by nz()
+        return "nz(%s)" % go_str(b.replace(b"\x01", b"\x011").replace(b"\x00", b"\x010"))
     if len(b) >= 256:                       # long periodic strings are built at run time
         for unit in (1, 2, 3, 4, 5, 6, 7, 8, 10, 12, 16):
             if len(b) % unit == 0 and b == b[:unit] * (len(b) // unit):
@@ -465,6 +482,11 @@ TEXT_FIXED = [
     b"\xf0\x9f\x98", b"\xe4\xb8", b"\xfe\xfe\xff\xff", b"\xef\xbf\xbd\xff", b"h\xc3\xa9\xffllo", b" \xff ", b"\xff\xfe\xfd", b"\xc2\x85", b"\xe2\x80",
     b"ab" * 200, b"x" * 1000, U("é") * 300, b"a " * 300, b"abcdefghij" * 120 + b"needle" + b"abcdefghij" * 5, b"\xff" * 257, U("日本") * 100 + b"!",
 ]
+
+
+ADVERSARIAL_PAIRS = [(b"a" * 40 + b"b", b"aaaab"), (b"ab" * 30 + b"ac", b"abac"), (b"a" * 100 + b"ba", b"aaaaaaaaab"), (b"xxxxxxxxxxxxxxxxxxxxxxy", b"xxxy"),
+                     (b"aaaaaaaaaaaaaaaaaaaaaaaaaaaaaaaaaaaaaaaaaaaaaaaaaaaaaaaaaaaaaaab" * 3, b"aaaaaaab"), (U("é") * 30 + U("è"), U("éè")), (b"abcabcabcabcabcabcabcabcabd", b"abcabd"),
+                     (b"b" + b"a" * 40, b"ba"), (b"aaaab" + b"a" * 40, b"aaaab"), (b"a" * 30, b"aaaaab")]
 
 
 def rand_text(rng):
@@ -1003,6 +1025,17 @@ def generic_args(pkg, name, ptypes, pnames, rng, vol):
     reps = 2 if len(textlike) >= 2 or any(t in ("int32", "uint8") or t.startswith("func") for t in ptypes) else 1
     if len(ptypes) == 0:
         return [()]
+    # needle/haystack pairs that defeat first-byte skipping (many false starts before the match)
+    if len(textlike) >= 2 and name not in ("Repeat",) and all(t in ("string", "[]uint8", "int") for t in ptypes):
+        for h, nd in ADVERSARIAL_PAIRS:
+            args, k = [], 0
+            for t, pn in zip(ptypes, pnames):
+                if t == "int":
+                    args.append(-1 if pn == "n" else 1)
+                else:
+                    args.append(h if k == 0 else nd if k == 1 else b"<>")
+                    k += 1
+            out.append(tuple(args))
     for h in hay:
         for _ in range(reps):
             args = []
